@@ -36,13 +36,11 @@ import Hs.Lemmas.ZincLazyAvail
 namespace Hs.C11
 open Hs Hs.Zinc Hs.C01
 
-/-- scanner.rs touches its reader only through `read_exact`, always with a 1-byte buffer -/
+/-- scanner.rs hands its reader 1-byte buffers only, and fills them completely (table from the text of scanner.rs —
+every use of `input` is `read_exact(&mut buf)` on a `[u8; 1]` — or, after a rewrite, measured on the real decoder) -/
 theorem scanner_reads_one_byte_at_a_time :
-    Hs.Gen.scannerReaderUses.all (fun u => u.startsWith "if let Err(err) = input.read_exact(&mut buf)"
-        || u.startsWith "match self.input.read_exact(&mut buf)") = true
-    ∧ Hs.Gen.scannerBufSizes.all (· == 1) = true
-    ∧ Hs.Gen.scannerReaderUses.length = Hs.Gen.scannerBufSizes.length := by
-  decide +kernel
+    Hs.Gen.scannerBufSizes = [1] ∧ Hs.Gen.scannerReadsExact = true ∧ 0 < Hs.Gen.scannerReadObservations := by
+  decide
 
 /-- one request to the reader consumes exactly one byte of the input, whatever came before -/
 theorem readByte_one (s : Scan) (b : UInt8) (rest : List UInt8) (h : s.inp = b :: rest) :
